@@ -6,7 +6,7 @@
    facts about the countersignature, every action of the two validations.
    [wf i] is the one input contract: every trust store value of the policy has
    a ':' separator (trust policy validation rejects the document otherwise). *)
-From NV Require Import Base C06_Model C06_Proofs.
+From NV Require Import Base C06_Model C06_Proofs C06_Audit.
 Local Open Scope Z_scope.
 
 (* ---------- expiry: compared with the moment of verification ---------- *)
@@ -225,6 +225,192 @@ Theorem C06_model_meets_oracle : forall i, wf i = true -> spec_ok i (model i) = 
 Proof. exact model_spec_ok. Qed.
 Print Assumptions C06_model_meets_oracle.
 
+(* ---------- added by the theorem audit (docs/audit/C06.md) ---------- *)
+
+(* THE STATEMENT, "passes only if", for EVERY input — no input contract, no
+   hypothesis on the policy: whenever the authentic-timestamp validation
+   passes, every certificate of the chain was valid at the trusted time of the
+   case at hand (a trustStores value without separator can only make it fail) *)
+Theorem C06_passes_only_if : forall i, verify_authentic_timestamp i = Passed ->
+  (i_scheme i = SigningAuthority -> Forall (Valid_at (i_sigtime i)) (i_chain i)) /\
+  (i_scheme i = X509 -> ~ Applies i -> Forall (Valid_at (i_now i)) (i_chain i)) /\
+  (i_scheme i = X509 -> Applies i -> Token_ok i).
+Proof. exact passes_only_if. Qed.
+Print Assumptions C06_passes_only_if.
+
+(* the whole property on the observation of Verify, both directions: the
+   authenticTimestamp entry of the outcome is "passed" exactly when
+   verification was not stopped by an enforced expiry failure and the chain was
+   valid at the trusted time *)
+Theorem C06_statement : forall i, wf i = true ->
+  (o_ts (model i) = Some Passed <->
+   ~ (i_aexp i = Enforce /\ exists e, i_expiry i = Some e /\ e <= i_now i) /\
+   match i_scheme i with
+   | SigningAuthority => Forall (Valid_at (i_sigtime i)) (i_chain i)
+   | X509 => (~ Applies i /\ Forall (Valid_at (i_now i)) (i_chain i)) \/ (Applies i /\ Token_ok i)
+   end).
+Proof. exact statement. Qed.
+Print Assumptions C06_statement.
+
+(* the expiry entry is always there and is "failed" exactly when the expiry is
+   not after the moment of verification *)
+Theorem C06_expiry_iff : forall i,
+  (o_expiry (model i) = Some false <-> exists e, i_expiry i = Some e /\ e <= i_now i) /\
+  (o_expiry (model i) = Some true <-> forall e, i_expiry i = Some e -> i_now i < e).
+Proof. exact expiry_iff. Qed.
+Print Assumptions C06_expiry_iff.
+
+(* end to end, no input contract: Verify returns no error under enforced
+   actions only if the signature has not expired and the chain was valid at the
+   trusted time *)
+Theorem C06_accepted_only_if : forall i, i_aexp i = Enforce -> i_ats i = Enforce ->
+  o_rejected (model i) = false ->
+  (forall e, i_expiry i = Some e -> i_now i < e) /\
+  (i_scheme i = SigningAuthority -> Forall (Valid_at (i_sigtime i)) (i_chain i)) /\
+  (i_scheme i = X509 -> ~ Applies i -> Forall (Valid_at (i_now i)) (i_chain i)) /\
+  (i_scheme i = X509 -> Applies i -> Token_ok i).
+Proof. exact accepted_only_if. Qed.
+Print Assumptions C06_accepted_only_if.
+
+(* ... and, under the input contract, exactly then *)
+Theorem C06_accepted_iff : forall i, wf i = true -> i_aexp i = Enforce -> i_ats i = Enforce ->
+  (o_rejected (model i) = false <->
+   (forall e, i_expiry i = Some e -> i_now i < e) /\
+   match i_scheme i with
+   | SigningAuthority => Forall (Valid_at (i_sigtime i)) (i_chain i)
+   | X509 => (~ Applies i /\ Forall (Valid_at (i_now i)) (i_chain i)) \/ (Applies i /\ Token_ok i)
+   end).
+Proof. exact accepted_iff. Qed.
+Print Assumptions C06_accepted_iff.
+
+(* "timestamp verification applies" as the table of the quantifier: tsa store
+   listed x verifyTimestamp {unset, always, afterCertExpiry with an expired chain} *)
+Theorem C06_applies_cases : forall i,
+  Applies i <->
+  Lists_tsa (i_stores i) /\
+  (i_opt i = OptUnset \/ i_opt i = OptAlways \/ (i_opt i = OptAfterCertExpiry /\ Expired_now i)).
+Proof. exact applies_cases. Qed.
+Print Assumptions C06_applies_cases.
+
+(* the test the code performs (type of strings.Cut(value, ":") = "tsa", first
+   hit wins) is "some value starts with tsa:" *)
+Theorem C06_tsa_enabled_iff : forall i, wf i = true ->
+  (tsa_in_policy (i_stores i) = Some true <-> Lists_tsa (i_stores i)) /\
+  (tsa_in_policy (i_stores i) = Some false <-> ~ Lists_tsa (i_stores i)).
+Proof. exact tsa_enabled_iff. Qed.
+Print Assumptions C06_tsa_enabled_iff.
+
+(* under the input contract the configuration error cannot occur *)
+Theorem C06_no_config_error : forall i, wf i = true -> verify_authentic_timestamp i <> Failed WConfig.
+Proof. exact no_config_error. Qed.
+Print Assumptions C06_no_config_error.
+
+(* ---------- what each validation depends on, and on nothing else ---------- *)
+
+(* expiry: the moment of verification and the expiry time only (not the
+   scheme, the chain, the signing time, the policy, the countersignature) *)
+Theorem C06_expiry_depends_only_on : forall i i', i_now i = i_now i' -> i_expiry i = i_expiry i' ->
+  o_expiry (model i) = o_expiry (model i').
+Proof. exact expiry_clock. Qed.
+Print Assumptions C06_expiry_depends_only_on.
+
+(* signingAuthority: the signing time and the chain only *)
+Theorem C06_sa_depends_only_on : forall i i',
+  i_scheme i = SigningAuthority -> i_scheme i' = SigningAuthority ->
+  i_sigtime i = i_sigtime i' -> i_chain i = i_chain i' ->
+  verify_authentic_timestamp i = verify_authentic_timestamp i'.
+Proof. exact sa_clock. Qed.
+Print Assumptions C06_sa_depends_only_on.
+
+(* notary.x509: never the signing time, the expiry or the actions *)
+Theorem C06_x509_depends_only_on : forall i i', i_scheme i = X509 -> i_scheme i' = X509 ->
+  i_now i = i_now i' -> i_chain i = i_chain i' -> i_stores i = i_stores i' -> i_opt i = i_opt i' ->
+  i_tsadb i = i_tsadb i' -> i_tok i = i_tok i' ->
+  verify_authentic_timestamp i = verify_authentic_timestamp i'.
+Proof. exact x509_clock. Qed.
+Print Assumptions C06_x509_depends_only_on.
+
+(* timestamp verification does not apply: no countersignature, however good,
+   and no content of the trust store changes the result — an expired chain is
+   not saved by a token the policy did not ask for *)
+Theorem C06_x509_no_tsa_ignores_token : forall i db k, wf i = true -> i_scheme i = X509 -> ~ Applies i ->
+  verify_authentic_timestamp (with_policy i (i_stores i) (i_opt i) db k) = verify_authentic_timestamp i.
+Proof. exact x509_no_tsa_ignores_token. Qed.
+Print Assumptions C06_x509_no_tsa_ignores_token.
+
+(* timestamp verification applies: the moment of verification plays no further role *)
+Theorem C06_x509_tsa_ignores_now : forall i t, wf i = true -> i_scheme i = X509 ->
+  Applies i -> Applies (with_now i t) ->
+  verify_authentic_timestamp (with_now i t) = verify_authentic_timestamp i.
+Proof. exact x509_tsa_ignores_now. Qed.
+Print Assumptions C06_x509_tsa_ignores_now.
+
+(* ---------- the last two steps name the certificate ---------- *)
+
+(* the range is checked against the windows in chain order; the failure names
+   the first certificate whose window does not contain it, and says on which side *)
+Theorem C06_outside_window_names : forall i, wf i = true -> i_scheme i = X509 -> Applies i ->
+  k_present (i_tok i) = true -> k_parses (i_tok i) = true -> k_info (i_tok i) = true ->
+  k_imprint (i_tok i) = true -> all_load i = true -> some_root i = true ->
+  k_verify (i_tok i) = true -> k_rules (i_tok i) = true ->
+  ~ Forall (Inside (k_gen (i_tok i) - k_acc (i_tok i)) (k_gen (i_tok i) + k_acc (i_tok i))) (i_chain i) ->
+  exists k c, nth_error (i_chain i) k = Some c /\
+    Forall (Inside (k_gen (i_tok i) - k_acc (i_tok i)) (k_gen (i_tok i) + k_acc (i_tok i))) (firstn k (i_chain i)) /\
+    ((verify_authentic_timestamp i = Failed (WTsBefore (N.of_nat k)) /\
+        k_gen (i_tok i) - k_acc (i_tok i) < nb c) \/
+     (verify_authentic_timestamp i = Failed (WTsAfter (N.of_nat k)) /\
+        nb c <= k_gen (i_tok i) - k_acc (i_tok i) /\ na c < k_gen (i_tok i) + k_acc (i_tok i))).
+Proof. exact step_window_names. Qed.
+Print Assumptions C06_outside_window_names.
+
+Theorem C06_tsa_revocation_error : forall i, wf i = true -> i_scheme i = X509 -> Applies i ->
+  k_present (i_tok i) = true -> k_parses (i_tok i) = true -> k_info (i_tok i) = true ->
+  k_imprint (i_tok i) = true -> all_load i = true -> some_root i = true ->
+  k_verify (i_tok i) = true -> k_rules (i_tok i) = true ->
+  Forall (Inside (k_gen (i_tok i) - k_acc (i_tok i)) (k_gen (i_tok i) + k_acc (i_tok i))) (i_chain i) ->
+  k_rev (i_tok i) = VErr -> verify_authentic_timestamp i = Failed WRevErr.
+Proof. exact step_rev_error. Qed.
+Print Assumptions C06_tsa_revocation_error.
+
+(* a revoked TSA certificate anywhere in the chain: "revoked", naming the first
+   revoked one — whatever the other results are *)
+Theorem C06_tsa_revoked_names : forall i, wf i = true -> i_scheme i = X509 -> Applies i ->
+  k_present (i_tok i) = true -> k_parses (i_tok i) = true -> k_info (i_tok i) = true ->
+  k_imprint (i_tok i) = true -> all_load i = true -> some_root i = true ->
+  k_verify (i_tok i) = true -> k_rules (i_tok i) = true ->
+  Forall (Inside (k_gen (i_tok i) - k_acc (i_tok i)) (k_gen (i_tok i) + k_acc (i_tok i))) (i_chain i) ->
+  forall rs, k_rev (i_tok i) = VRes rs -> In RRevoked rs ->
+  exists k, nth_error rs k = Some RRevoked /\ ~ In RRevoked (firstn k rs) /\
+            verify_authentic_timestamp i = Failed (WRevoked (N.of_nat k)).
+Proof. exact step_revoked_names. Qed.
+Print Assumptions C06_tsa_revoked_names.
+
+(* none revoked, but not all OK / non-revokable: "unknown", naming the first such one *)
+Theorem C06_tsa_unknown_names : forall i, wf i = true -> i_scheme i = X509 -> Applies i ->
+  k_present (i_tok i) = true -> k_parses (i_tok i) = true -> k_info (i_tok i) = true ->
+  k_imprint (i_tok i) = true -> all_load i = true -> some_root i = true ->
+  k_verify (i_tok i) = true -> k_rules (i_tok i) = true ->
+  Forall (Inside (k_gen (i_tok i) - k_acc (i_tok i)) (k_gen (i_tok i) + k_acc (i_tok i))) (i_chain i) ->
+  forall rs, k_rev (i_tok i) = VRes rs -> ~ In RRevoked rs ->
+  ~ Forall (fun r => r = ROK \/ r = RNonRevokable) rs ->
+  exists k r, nth_error rs k = Some r /\ r <> ROK /\ r <> RNonRevokable /\
+              Forall (fun r => r = ROK \/ r = RNonRevokable) (firstn k rs) /\
+              verify_authentic_timestamp i = Failed (WRevUnknown (N.of_nat k)).
+Proof. exact step_unknown_names. Qed.
+Print Assumptions C06_tsa_unknown_names.
+
+(* the code reads the clock twice (verifyExpiry, then verifyTimestamp); with the
+   expiry validation reading [te] and the other one [i_now i] nothing else
+   changes: the expiry theorems hold of [te], the authentic-timestamp theorems
+   of [i_now i] *)
+Theorem C06_two_clock_reads : forall te i,
+  model2 (i_now i) i = model i /\
+  o_expiry (model2 te i) = o_expiry (model (with_now i te)) /\
+  (o_ts (model2 te i) = None \/ o_ts (model2 te i) = Some (verify_authentic_timestamp i)) /\
+  (o_ts (model2 te i) = None <-> i_aexp i = Enforce /\ exists e, i_expiry i = Some e /\ e <= te).
+Proof. exact two_clock_reads. Qed.
+Print Assumptions C06_two_clock_reads.
+
 (* ---------- non-vacuity ---------- *)
 
 (* a leaf that expired 10 h ago (36000 s), under a policy with a tsa store and
@@ -266,3 +452,129 @@ Example C06_example_expiry_now :
            (mk_token false false false false 0 0 false false VErr) Log Log)
   = mk_obs (Some false) (Some Passed) false.
 Proof. reflexivity. Qed.
+
+(* ---------- non-vacuity of the step theorems (added by the audit) ----------
+   [ex_in ["ca:s"; "tsa:a"] k] satisfies the common hypotheses (input contract,
+   notary.x509, timestamp verification applies) for every token [k] *)
+Example C06_example_common : forall k,
+  wf (ex_in ["ca:s"; "tsa:a"] k) = true /\ i_scheme (ex_in ["ca:s"; "tsa:a"] k) = X509 /\
+  Applies (ex_in ["ca:s"; "tsa:a"] k) /\
+  all_load (ex_in ["ca:s"; "tsa:a"] k) = true /\ some_root (ex_in ["ca:s"; "tsa:a"] k) = true.
+Proof.
+  intros k. split; [reflexivity|]. split; [reflexivity|].
+  split; [apply applies_iff; reflexivity|]. split; reflexivity.
+Qed.
+
+(* one token per step: the facts before the step hold, the step's fact does not *)
+Example C06_example_unparsable :
+  verify_authentic_timestamp (ex_in ["ca:s"; "tsa:a"] (mk_token true false false false 0 0 false false VErr))
+  = Failed WParse.
+Proof. reflexivity. Qed.
+
+Example C06_example_bad_tstinfo :
+  verify_authentic_timestamp (ex_in ["ca:s"; "tsa:a"] (mk_token true true false false 0 0 false false VErr))
+  = Failed WInfo.
+Proof. reflexivity. Qed.
+
+Example C06_example_wrong_message :
+  verify_authentic_timestamp (ex_in ["ca:s"; "tsa:a"] (mk_token true true true false 0 0 true true (VRes [ROK; ROK])))
+  = Failed WImprint.
+Proof. reflexivity. Qed.
+
+(* a listed tsa store the trust store cannot load / a tsa store without certificates *)
+Example C06_example_store_error :
+  wf (ex_in ["tsa:a"; "ca:s"; "tsa:zz"] ex_tok) = true /\ Applies (ex_in ["tsa:a"; "ca:s"; "tsa:zz"] ex_tok) /\
+  all_load (ex_in ["tsa:a"; "ca:s"; "tsa:zz"] ex_tok) = false /\
+  verify_authentic_timestamp (ex_in ["tsa:a"; "ca:s"; "tsa:zz"] ex_tok) = Failed WLoad.
+Proof. split; [reflexivity|]. split; [apply applies_iff; reflexivity|]. split; reflexivity. Qed.
+
+Example C06_example_no_roots :
+  let i := with_policy (ex_in [] ex_tok) ["ca:s"; "tsa:e"] OptAfterCertExpiry [("e", SEmpty)] ex_tok in
+  wf i = true /\ Applies i /\ all_load i = true /\ some_root i = false /\
+  verify_authentic_timestamp i = Failed WNoRoots.
+Proof.
+  cbv zeta. split; [reflexivity|]. split; [apply applies_iff; reflexivity|].
+  split; [reflexivity|]. split; reflexivity.
+Qed.
+
+Example C06_example_untrusted_tsa :
+  verify_authentic_timestamp (ex_in ["ca:s"; "tsa:a"] (mk_token true true true true (-72000) 1 false false (VRes [ROK; ROK])))
+  = Failed WVerify.
+Proof. reflexivity. Qed.
+
+Example C06_example_mispurposed_tsa :
+  verify_authentic_timestamp (ex_in ["ca:s"; "tsa:a"] (mk_token true true true true (-72000) 1 true false (VRes [ROK; ROK])))
+  = Failed WRules.
+Proof. reflexivity. Qed.
+
+(* the range against the leaf window [-360000, -36000]: after it, before it,
+   and touching its end (genTime + accuracy = notAfter is still inside) *)
+Example C06_example_outside_window :
+  verify_authentic_timestamp (ex_in ["ca:s"; "tsa:a"] (mk_token true true true true (-30000) 1 true true (VRes [ROK; ROK])))
+  = Failed (WTsAfter 0) /\
+  verify_authentic_timestamp (ex_in ["ca:s"; "tsa:a"] (mk_token true true true true (-400000) 1 true true (VRes [ROK; ROK])))
+  = Failed (WTsBefore 0) /\
+  verify_authentic_timestamp (ex_in ["ca:s"; "tsa:a"] (mk_token true true true true (-36001) 1 true true (VRes [ROK; ROK])))
+  = Passed /\
+  verify_authentic_timestamp (ex_in ["ca:s"; "tsa:a"] (mk_token true true true true (-36001) 2 true true (VRes [ROK; ROK])))
+  = Failed (WTsAfter 0).
+Proof. repeat split. Qed.
+
+(* revocation of the TSA chain: error; revoked (wins over an unknown in front
+   of it); unknown; non-revokable counts as OK *)
+Example C06_example_tsa_revocation :
+  let tok v := mk_token true true true true (-72000) 1 true true v in
+  verify_authentic_timestamp (ex_in ["ca:s"; "tsa:a"] (tok VErr)) = Failed WRevErr /\
+  verify_authentic_timestamp (ex_in ["ca:s"; "tsa:a"] (tok (VRes [ROK; RRevoked]))) = Failed (WRevoked 1) /\
+  verify_authentic_timestamp (ex_in ["ca:s"; "tsa:a"] (tok (VRes [RUnknown; RRevoked]))) = Failed (WRevoked 1) /\
+  verify_authentic_timestamp (ex_in ["ca:s"; "tsa:a"] (tok (VRes [RUnknown; ROK]))) = Failed (WRevUnknown 0) /\
+  verify_authentic_timestamp (ex_in ["ca:s"; "tsa:a"] (tok (VRes [ROK; RNonRevokable]))) = Passed.
+Proof. repeat split. Qed.
+
+(* timestamp verification does not apply although a tsa store is listed:
+   afterCertExpiry and nothing expired — a chain valid now passes without any
+   token, a certificate not yet valid fails against now (it is not "expired") *)
+Example C06_example_after_expiry_unexpired :
+  let i w := mk_input 0 X509 (-80000) None [mk_cert w 36000; mk_cert (-360000) 360000]
+               ["ca:s"; "tsa:a"] OptAfterCertExpiry [("a", SCerts)]
+               (mk_token false false false false 0 0 false false VErr) Enforce Enforce in
+  wf (i (-36000)) = true /\ ~ Applies (i (-36000)) /\
+  Forall (Valid_at 0) (i_chain (i (-36000))) /\
+  model (i (-36000)) = mk_obs (Some true) (Some Passed) false /\
+  ~ Applies (i 3600) /\ model (i 3600) = mk_obs (Some true) (Some (Failed (WNowBefore 0))) true.
+Proof.
+  assert (N : forall w, ~ Applies (mk_input 0 X509 (-80000) None [mk_cert w 36000; mk_cert (-360000) 360000]
+               ["ca:s"; "tsa:a"] OptAfterCertExpiry [("a", SCerts)]
+               (mk_token false false false false 0 0 false false VErr) Enforce Enforce)).
+  { intros w H. apply applies_iff in H. discriminate. }
+  cbv zeta. split; [reflexivity|]. split; [apply N|]. split.
+  - repeat constructor; unfold Valid_at; cbn; lia.
+  - split; [reflexivity|]. split; [apply N | reflexivity].
+Qed.
+
+(* outside the input contract (a trustStores value without separator) the
+   validation fails closed: configuration error, or the tsa stores do not load *)
+Example C06_example_no_separator :
+  wf (ex_in ["bad"; "tsa:a"] ex_tok) = false /\
+  verify_authentic_timestamp (ex_in ["bad"; "tsa:a"] ex_tok) = Failed WConfig /\
+  verify_authentic_timestamp (ex_in ["tsa:a"; "bad"] ex_tok) = Failed WLoad.
+Proof. repeat split. Qed.
+
+(* the equality boundaries (proved on the model; the code reads the wall clock,
+   so the harness stays an hour away from those that involve "now"): a
+   certificate is valid AT notBefore and AT notAfter, for each clock, and a
+   certificate at notAfter = now is not "expired" for afterCertExpiry *)
+Example C06_example_boundaries :
+  let x now w opt := mk_input now X509 0 None [w] ["ca:s"; "tsa:a"] opt [("a", SCerts)]
+                       (mk_token false false false false 0 0 false false VErr) Enforce Enforce in
+  let sa t w := mk_input 999 SigningAuthority t None [w] ["signingAuthority:s"] OptUnset []
+                  (mk_token false false false false 0 0 false false VErr) Enforce Enforce in
+  verify_authentic_timestamp (x 100 (mk_cert (-5) 100) OptAfterCertExpiry) = Passed /\
+  verify_authentic_timestamp (x 101 (mk_cert (-5) 100) OptAfterCertExpiry) = Failed WNoToken /\
+  verify_authentic_timestamp (x (-5) (mk_cert (-5) 100) OptAfterCertExpiry) = Passed /\
+  verify_authentic_timestamp (x (-6) (mk_cert (-5) 100) OptAfterCertExpiry) = Failed (WNowBefore 0) /\
+  verify_authentic_timestamp (sa (-5) (mk_cert (-5) 100)) = Passed /\
+  verify_authentic_timestamp (sa 100 (mk_cert (-5) 100)) = Passed /\
+  verify_authentic_timestamp (sa (-6) (mk_cert (-5) 100)) = Failed (WSigTime 0) /\
+  verify_authentic_timestamp (sa 101 (mk_cert (-5) 100)) = Failed (WSigTime 0).
+Proof. repeat split. Qed.
